@@ -179,6 +179,8 @@ def run(prop, tier, harnesses):
             if len(res['failed']) < 2:
                 f.update(playback(h))
             res['failed'][h['id']] = [f]
+    if any(h['name'].startswith('normalising_constructors') for h in harnesses):
+        res['trusted'].append('kani stub: compact_str::repr::ensure_read (a no-op inline-asm barrier that returns its argument) replaced by the identity function in the C19 constructor harnesses (Kani does not support inline asm)')
     res['assumptions'] = ['kani harness inputs are kani::any() over the whole type unless the label says bounded',
                           'CBMC unwinding assertions are on: an insufficient unwind bound fails instead of passing']
     return res
